@@ -17,7 +17,15 @@ def obligations(tier):
         Ob("C16.silent/parse_from_file", "misc", "c_plumb", {}, t, ["simple_ddl_parser/ddl_parser.py:parse_from_file"],
            "the silent setting given through parser_settings reaches the constructor on every call and the caller's dict is not modified (replay: two calls sharing one settings dict)"),
         Ob("C16.mode/unknown", "misc", "c_mode", {}, t, FN, "output_mode any string of length <= 4 outside the 15 names; script yields nothing / a sequence / a table (symbolic); group_by_type symbolic"),
+        Ob("C16.mode/near-miss", "misc", "c_mode_near", {}, max(t, 300), FN, "each of the 15 valid names (symbolic index) in 7 near-miss spellings (upper, Capitalized, one upper-cased letter at a symbolic position, "
+           "leading / trailing blank, last letter dropped / added) and None; script yields nothing / a sequence / a table; group_by_type symbolic"),
         Ob("C16.mode/valid", "misc", "c_valid_mode", {}, t, FN, "each of the 15 documented names (symbolic index) x script yields nothing / a sequence / a table", api=False),
+    ] + [
+        Ob(f"C16.reach/after-unterminated/{n}", "pre", "c_split3", {"VF_K1": k}, 300 if tier == "quick" else 900,
+           ["simple_ddl_parser/parser.py:Parser.parse_data, process_line, check_line_on_skip_words, check_new_statement_start, process_statement (yacc.parse replaced by the identity)"],
+           f"three lines: first = `{n}` without a terminating ';' (skipped statement), second and third any of the 27 catalogued lines (GO, unsupported statements such as COMMENT ON / TRUNCATE / MERGE, "
+           "supported ones; symbolic): every later statement is handed to the parser exactly as it is alone - so an unsupported one reaches p_error (C16.perr) whatever precedes it")
+        for k, n in ((23, "INSERT INTO t VALUES (1)"), (25, "DELETE FROM t"))
     ] + lex_obs("C16", "c_case", ["alter_body", "alter_add", "alter_drop", "alter_rename", "alter_modify"], tier, "supported-in-any-case")
 
 
